@@ -15,7 +15,7 @@ META = {
                    "(K-guard, G-count; push safety is C02's P-push); (K-fit) the static maximum bit length of every list-bearing message with all loops "
                    "at their capacity is <= 8172; (E-prop) every fallible call in the decode closure is propagated with ?, returned or matched, so a "
                    "short body (BufferOverflow) or an over-capacity count reaches from_message_frame's Corrupt mapping (E-map)."
-                   "(B-sem) the bit-exact reading of put / parse these clauses stand on (field bits MSB first at the cursor, nothing else touched) is the abstract interpretation of C07, imported and decided here too. Completeness and integrity: the decoded list is mutated only by the loop's push (no pop / truncate / reorder afterwards), encoders propagate every element error (E-prop on the encode closure), and message 1029's count-prefixed text is covered through X-lim / X-utf8 (counts, limits, 'no byte is skipped', 'the text is exactly the counted bytes').",
+                   "(B-sem) the bit-exact reading of put / parse these clauses stand on (field bits MSB first at the cursor, nothing else touched) is the abstract interpretation of C07, imported and decided here too. Completeness and integrity: the decoded list is mutated only by the loop's push (no pop / truncate / reorder afterwards), encoders propagate every element error (E-prop on the encode closure), and message 1029's count-prefixed text is covered through X-lim / X-utf8 (counts, limits, 'no byte is skipped', 'the text is exactly the counted bytes'), and X-cap of C17 for ArrayString (a text that fills the capacity keeps its last character: try_push refuses a character exactly when it does not fit).",
     "assumptions": ["MSM and code-bias structures are covered by C10 / C16"],
 }
 
@@ -46,3 +46,6 @@ def run(ctx, res):
     import textrules
     textrules.rule_limits(prog, engine.Filtered(res, {"X-lim"}))
     textrules.rule_utf8_writers(prog, engine.Filtered(res, {"X-utf8"}, key_prefixes=("1029 decode",)))
+    # "decoding returns exactly that many elements" for a text that fills the capacity: the decoder goes through ArrayString::from(&str), which must
+    # keep every character that fits (S135: a capacity test one byte too strict drops the last character of a 255-byte text)
+    textrules.rule_capacity(prog, engine.Filtered(res, {"X-cap"}, key_contains={"X-cap": ("ArrayString", "array_string")}))
